@@ -64,18 +64,28 @@ static void do_sleep(int via, uint64_t us) {
  * moment a fiber on thread A calls a short sleep ---- */
 static int al_d_us, al_e_us, al_sleep_us, al_reps;
 static volatile int al_started;
+static int al_both_sleep;
+static uint64_t al_until_ns; /* both-sleep mode: both computations end at this instant (chosen tick phase) */
 static void* al_finisher(void* p) {
   (void)p;
   al_started = 1;
-  sim_compute((uint64_t)al_d_us * 1000);
+  if (al_both_sleep) sim_compute_until(al_until_ns);
+  else sim_compute((uint64_t)al_d_us * 1000);
   sim_progress();
+  if (al_both_sleep) { /* both kernel threads were busy for several ticks; both fibers now sleep */
+    uint64_t t0 = g_before();
+    int sw0 = g_sw();
+    fiber_sleep(0, (uint32_t)al_sleep_us);
+    g_after(1, t0, (uint64_t)al_sleep_us, sw0);
+  }
   return NULL;
 }
 static void* al_sleeper(void* p) {
   (void)p;
   long pre = (long)al_d_us + al_e_us;
   if (pre < 0) pre = 0;
-  sim_compute((uint64_t)pre * 1000);
+  if (al_both_sleep) sim_compute_until(al_until_ns + (al_e_us > 0 ? (uint64_t)al_e_us * 1000 : 0));
+  else sim_compute((uint64_t)pre * 1000);
   for (int k = 0; k < al_reps; k++) {
     uint64_t t0 = g_before();
     int sw0 = g_sw();
@@ -89,8 +99,14 @@ static void run_aligned(sim_cfg_t c) {
   al_e_us = wl_int(-600, 2500);
   al_sleep_us = wl_pick(2) ? 300 : 999;
   al_reps = wl_int(1, 2);
-  sim_describe("threads=%d aligned: finisher computes %d us, sleeper computes %d us then sleeps %d us x%d cost=%dns preempt=1/%d", c.threads, al_d_us, al_d_us + al_e_us, al_sleep_us, al_reps,
-               c.cost_ns, c.preempt_inv);
+  al_both_sleep = wl_pct(50);
+  if (al_both_sleep) {
+    al_e_us = wl_pct(60) ? 0 : wl_int(0, 200);
+    /* the timer started ticking at (about) time 0 with a 5 ms period: pick the phase at which both wake up */
+    al_until_ns = ((uint64_t)al_d_us / 5000) * 5000000ull + (uint64_t)wl_int(0, 4999) * 1000;
+  }
+  sim_describe("threads=%d aligned: fiber A computes %d us%s, fiber B computes %d us then sleeps %d us x%d cost=%dns preempt=1/%d", c.threads, al_d_us, al_both_sleep ? " then sleeps too" : " and ends",
+               al_d_us + al_e_us, al_sleep_us, al_reps, c.cost_ns, c.preempt_inv);
   sim_nontrivial();
   sim_set_quiet_ns(100 * 5000000ull);
   sim_fiber_mode();
@@ -131,7 +147,7 @@ void h_run(void) {
   nthreads = c.threads;
   static const uint64_t durs[] = {0, 300, 999, 1000, 3000, 5000, 7000, 12000, 12000, 25000, 60000, 250000, 1000300, 2007000};
   const int ndur = sim_tier_thorough() ? 14 : 12;
-  if (wl_pct(12)) {
+  if (wl_pct(22)) {
     run_aligned(c);
     return;
   }
